@@ -149,8 +149,13 @@ def observe(cfg):
         obs["status"] = "skip:" + str(s)
         return obs
     frozen_src = onp.array(x, copy=True) if isinstance(x, onp.ndarray) else x
+    kink = bool(info.get("kink"))
     try:
-        W, y0, exact = numpy_jacobian(info.get("f_numpy", f), x)
+        if kink:
+            y0 = onp.asarray(f(x))
+            W, exact = onp.zeros((realify(y0).size, realify(x).size)), False
+        else:
+            W, y0, exact = numpy_jacobian(info.get("f_numpy", f), x)
     except Skip as s:
         obs["status"] = "skip:" + str(s)
         return obs
@@ -197,6 +202,30 @@ def observe(cfg):
     except Exception as ex:     # noqa
         v["raised"] = type(ex).__name__
         v["msg"] = str(ex)[:120]
+    if kink and v["raised"] is None:
+        # generalised-gradient contract, per output component i: for every direction d, <vjp(e_i), d> lies between the two
+        # one-sided directional derivatives of f_i along d (exact for these piecewise-polynomial maps with a small step)
+        rs = onp.random.RandomState(11)
+        nb, worst = 0, []
+        if RR is None or not onp.all(onp.isfinite(RR)):
+            nb = 1
+        else:
+            h = 2.0 ** -20
+            xr = realify(x)
+            fr = lambda vec: realify(f(unreal(vec, x) if onp.ndim(x) else float(vec[0])))
+            base = fr(xr)
+            for _ in range(6):
+                dvec = rs.uniform(-1.0, 1.0, n)
+                dp = (fr(xr + h * dvec) - base) / h
+                dm = (base - fr(xr - h * dvec)) / h
+                pr_ = RR @ dvec
+                lo_, hi_ = onp.minimum(dp, dm), onp.maximum(dp, dm)
+                tol = 1e-6 * onp.maximum(1.0, onp.maximum(onp.abs(lo_), onp.abs(hi_)))
+                viol = onp.argwhere(~((lo_ - tol <= pr_) & (pr_ <= hi_ + tol))).ravel()
+                nb += int(len(viol))
+                for i_ in viol[:2]:
+                    worst.append([int(i_), round(float(lo_[i_]), 6), round(float(pr_[i_]), 6), round(float(hi_[i_]), 6)])
+        v["bad"], v["nbad"] = worst[:3], nb
     obs["vjp"] = v
     # ---------------- forward mode
     FR = None
@@ -225,6 +254,8 @@ def observe(cfg):
     except Exception as ex:     # noqa
         j["raised"] = type(ex).__name__
         j["msg"] = str(ex)[:120]
+    if kink:
+        j["bad"], j["nbad"] = [], 0          # forward mode at a kink is only required to be the adjoint of reverse mode (C04)
     obs["jvp"] = j
     # ---------------- adjointness and linearity (oracle-free, 1e-11)
     adj = {"nbad": 0, "bad": [], "lin_vjp": 0, "lin_jvp": 0, "checked": False}
